@@ -271,24 +271,40 @@ def fromConvexPolyline (points : Array (V2 K)) : Option (Array (V2 K) × Array (
     let normals := r.2.1.extract 0 newLength
     if 2 < points.size then some (points, normals) else none
 
+/-- `ConvexPolygon::from_convex_polyline_unmodified(points)`: every point kept; `none` for fewer than three points or an
+edge without a unit normal -/
+def fromConvexPolylineUnmodified (points : Array (V2 K)) : Option (Array (V2 K) × Array (V2 K)) :=
+  if points.size ≤ 2 then none else
+  match polylineNormals points points.size #[] with
+  | none => none
+  | some normals => some (points, normals)
+
 /-- a shape of the compound built by `decompose_trimesh` -/
 inductive Piece (K : Type) where
   | triangle (a b c : V2 K)
   | polygon (points normals : Array (V2 K))
 
-/-- the `.map(|points| match points.len() { 3 => Triangle, _ => from_convex_polyline }).collect::<Option<Vec<_>>>()` -/
+/-- the `.map(|points| match points.len() { 3 => Triangle, _ => from_convex_polyline(..).or_else(..unmodified) })
+.collect::<Option<Vec<_>>>()`.  CORRECTED behaviour (fixes/C16-decompose-needle-piece.diff): a piece all of whose corners
+but two are flatter than the pruning tolerance of `from_convex_polyline` (a needle; it can have a large area) is kept with
+all its points instead of making the whole decomposition `None`. -/
 def piecesOf : List (Array (V2 K)) → Option (List (Piece K))
   | [] => some []
   | p :: ps =>
     let s : Option (Piece K) :=
       if p.size = 3 then some (.triangle (pt p 0) (pt p 1) (pt p 2))
-      else (fromConvexPolyline p).map fun r => .polygon r.1 r.2
+      else
+        let q : Option (Array (V2 K) × Array (V2 K)) :=
+          match fromConvexPolyline p with
+          | some r => some r
+          | none => fromConvexPolylineUnmodified p
+        q.map fun r => .polygon r.1 r.2
     match s with
     | none => none
     | some s => (piecesOf ps).map (s :: ·)
 
 /-- `Compound::decompose_trimesh(trimesh)` on the mesh `(vertices, indices)`: the shapes of the compound (all with the
-identity pose), `none` when some piece is rejected by `from_convex_polyline` -/
+identity pose), `none` when some piece has an edge without a unit normal (`ccw_face_normal`) -/
 def decomposeTrimesh (pts : Array (V2 K)) (tris : Array (Nat × Nat × Nat)) : Option (List (Piece K)) :=
   piecesOf (hertelMehlhorn pts tris).toList
 
